@@ -82,3 +82,31 @@ Proof.
   unfold demo_build, demo_clean. cbn [app]. do 27 clean_step2. apply clean_nil.
 Qed.
 
+(* erase of an operation WITH a region (region 1 = [block 1 (one argument) = [op 1 (one result)]])
+   through the tree version of the erase theorem: the hypothesis tree_live is satisfiable, and the
+   5-call history from the empty heap is clean *)
+Definition demo_tree : list call :=
+  [COpCreate [] 1%nat [] []; CBlockNew [P1] 1%nat; CRegionNew [P1]; COpCreate [] 0%nat [] [P1];
+   COpErase P2 true].
+
+Ltac tree_tac :=
+  cbv [tree_live XV.C01.ProofsErase.all_live];
+  let g := fresh "g" in let J := fresh "J" in
+  intros g J;
+  match type of J with In _ ?L =>
+    let l := eval vm_compute in L in
+    let E := fresh "E" in assert (E : L = l) by (vm_compute; reflexivity); rewrite E in J; clear E end;
+  repeat (destruct J as [<-|J];
+          [cbv beta iota delta [XV.C01.ProofsErase.glive]; lazymatch goal with |- True => exact Logic.I | _ => live_tac end|]);
+  destruct J.
+Ltac clean_step3 :=
+  eapply clean_cons;
+  [reflexivity
+  | cbv [args_live];
+    lazymatch goal with |- True => exact Logic.I | |- _ \/ _ => right; tree_tac | _ => in_live_tac end
+  | vm_compute; reflexivity | ].
+Lemma demo_tree_ok : clean empty_state demo_tree /\ wf_b (run demo_tree empty_state) = true.
+Proof.
+  split; [|vm_compute; reflexivity].
+  unfold demo_tree. do 5 clean_step3. apply clean_nil.
+Qed.
